@@ -2665,6 +2665,18 @@ def _log2_dy(m, e):
     return math.log2(m) + float(e)
 
 
+def _log2_ratio(a, b):
+    """log2(|a| / |b|) for dyadic pairs, exponents subtracted exactly first (they may be astronomically large)"""
+    if not a[0]:
+        return float('-inf')
+    if not b[0]:
+        return float('inf')
+    de = a[1] - b[1]
+    if abs(de) > (1 << 60):
+        return 1e300 if de > 0 else -1e300
+    return _log2_dy(abs(a[0]), 0) - _log2_dy(abs(b[0]), 0) + float(de)
+
+
 def err_bits(computed, E):
     """(log2 of the smallest, log2 of the largest) relative error |c-y|/|y| over the endpoints of E -- for
     reporting only (floats)"""
@@ -2675,7 +2687,7 @@ def err_bits(computed, E):
             out.append(float('-inf') if c[0] == 0 else float('inf'))
             continue
         d = _absdiff(c, y)
-        out.append(_log2_dy(*d) - _log2_dy(*y))
+        out.append(_log2_ratio(d, y))
     if E.contains(c):
         return float('-inf'), max(out)
     return min(out), max(out)
@@ -2686,8 +2698,7 @@ def abs_err_bits(computed, part, scale):
     c = _dy_of(tuple(computed))
     dmin, dmax = _dist_to(c, part)
     s = abs(scale).hi
-    ls = _log2_dy(*s)
-    return _log2_dy(*dmin) - ls, _log2_dy(*dmax) - ls
+    return _log2_ratio(dmin, s), _log2_ratio(dmax, s)
 
 
 # ---------------------------------------------------------------------------------------
